@@ -52,6 +52,22 @@
 
 #![allow(clippy::comparison_chain)]
 #![allow(clippy::type_complexity)]
+#![allow(unexpected_cfgs)]
+
+// Verification hook (add-only, off unless built with `--cfg sux_verif`): a
+// module-local `std` that is the real one except that `std::fs::File` is the
+// simulator's fault-injecting file, so the offline store runs on a simulated
+// disk.
+#[cfg(sux_verif)]
+#[allow(unused_imports)]
+mod std {
+    pub use ::std::*;
+    pub mod fs {
+        pub use ::std::fs::*;
+        pub use ::verif_rt::simfs::{File, OpenOptions};
+    }
+}
+
 use anyhow::Result;
 use common_traits::UpcastableInto;
 use epserde::prelude::*;
